@@ -20,6 +20,9 @@ structure Origin where
   chunked : Bool
   /-- the origin connection breaks after this many body bytes -/
   readErrAt : Option Nat := none
+  /-- the origin honours If-None-Match: 304 when it names the current ETag (`cl0`: with Content-Length: 0) -/
+  cond : Bool := false
+  cl0 : Bool := false
   deriving Repr
 
 inductive Op where
@@ -45,8 +48,10 @@ def pOp : P Op := do
     let b ← pBytes
     let ch ← pBool
     let re ← pInt
+    let cond ← pBool
+    let cl0 ← pBool
     pure (.origin { path := p, status := st, headers := hs, body := b, chunked := ch,
-                    readErrAt := if re < 0 then none else some re.toNat })
+                    readErrAt := if re < 0 then none else some re.toNat, cond := cond, cl0 := cl0 })
   else if k = "R" then
     let m ← pBytes
     let p ← pBytes
@@ -63,6 +68,8 @@ structure Obs where
   contacts : Nat
   /-- Range header seen by the origin, per contact -/
   contactRanges : List Bytes := []
+  /-- If-None-Match seen by the origin, per contact -/
+  contactINM : List Bytes := []
   deriving Repr
 
 def pObs : P Obs := do
@@ -71,8 +78,8 @@ def pObs : P Obs := do
   let b ← pBytes
   let hs ← pList pPair
   let nc ← pNat
-  let rs ← pTimes (do let _ ← pBytes; let _ ← pBytes; let r ← pBytes; pure r) nc
-  pure { status := st, framing := fr, body := b, headers := hs, contacts := nc, contactRanges := rs }
+  let rs ← pTimes (do let i ← pBytes; let _ ← pBytes; let r ← pBytes; pure (i, r)) nc
+  pure { status := st, framing := fr, body := b, headers := hs, contacts := nc, contactRanges := rs.map (·.2), contactINM := rs.map (·.1) }
 
 def hdrOf (wire : List (Bytes × Bytes)) : Header := wire.foldl (fun h kv => Header.add h kv.1 kv.2) []
 def valuesCI (h : List (Bytes × Bytes)) (name : Bytes) : List Bytes :=
@@ -86,6 +93,8 @@ structure Fetch where
   reqAuth : Bool
   reqOrigin : Bool
   method : Bytes
+  /-- the origin answered this fetch 304 (revalidation of the stored entry) -/
+  via304 : Bool := false
   deriving Repr
 
 def inGate (s : Nat) : Bool := s == 200 || Spec.redirectStatuses.contains s || (400 ≤ s && s ≤ 404)
@@ -133,7 +142,9 @@ def judge (force : Nat) (st : St) (method path : Bytes) (hs : List (Bytes × Byt
     match cur?, o.contacts with
     | some c, n + 1 =>
       let _ := n
-      { st with fetches := st.fetches ++ [{ key := key, origin := c, time := st.now, reqAuth := reqAuth, reqOrigin := reqOrigin, method := method }] }
+      let etag0 := (valuesCI c.headers b!"etag").headD []
+      { st with fetches := st.fetches ++ [{ key := key, origin := c, time := st.now, reqAuth := reqAuth, reqOrigin := reqOrigin, method := method,
+                                            via304 := c.cond && etag0 ≠ [] && o.contactINM.any (· == etag0) }] }
     | _, _ => st
   -- which origin answer does the delivered body belong to?
   let src? : Option Origin :=
@@ -167,15 +178,30 @@ def judge (force : Nat) (st : St) (method path : Bytes) (hs : List (Bytes × Byt
       let _ := curDoNotCache
       let c05a := cacheMethod && !reqAuth && !codeDoNotCache && !inGate c.status && c.body ≠ [] && method == b!"GET"
       let c05bad := if conditional ∨ staleIfError ∨ mirrors then [] else ["bad:C05:response-does-not-mirror-the-origin-answer"]
-      add st1 c05bad (if c05a then ["C05-a"] else [])
-        (if mirrors then "fill:mirror" else if staleIfError then "fill:stale-if-error" else if conditional then "fill:conditional" else "fill:other")
+      -- the origin answered this exchange's revalidation with 304 (it honours If-None-Match and was sent its current tag)
+      let etag := (valuesCI c.headers b!"etag").headD []
+      let got304 := c.cond && etag ≠ [] && o.contactINM.any (· == etag)
+      -- C09: a client that sent no validator never receives 304
+      let c09bad := (if !conditional ∧ o.status == 304 then ["bad:C09:304-for-a-client-that-sent-no-validator"] else []) ++
+        -- C09: a 304 keeps the stored body: the revalidating client is sent it
+        (if got304 ∧ !conditional ∧ !mirrors then ["bad:C09:stored-body-not-kept-across-a-304-revalidation"] else [])
+      -- finding C09-e seen from here: the revalidation of a stored entry is answered with a status outside the
+      -- storage gate and NO body; the revalidating writer has no file of its own, WrittenFile re-opens the OLD
+      -- entry and its bytes go out under the new status line (when the new answer declares no length)
+      let c09eFill := !inGate c.status && c.body == [] && o.body ≠ [] && src?.isSome
+      add st1 (c05bad ++ c09bad) ((if c05a then ["C05-a"] else []) ++ (if c09eFill then ["C09-e"] else []))
+        (if mirrors then (if got304 then "fill:mirror-after-304" else "fill:mirror") else if staleIfError then "fill:stale-if-error" else if conditional then "fill:conditional" else "fill:other")
     else
       -- served without origin contact
       if conditional ∨ !cacheMethod then add st1 [] [] "hit:conditional-or-method" else
       match src? with
       | none =>
         if o.body == [] ∧ (method == b!"HEAD" ∨ (st.all.filter (·.path == path)).any (·.body == [])) then add st1 [] [] "hit:empty-body"
-        else add st1 ["bad:C05:served-from-cache-a-body-the-origin-never-sent"] [] "hit:unknown-body"
+        else
+          -- after a 304 revalidation of this key the hit must still replay the stored body (C07, C09)
+          let after304 := match (st.fetches.filter (·.key == key)).getLast? with | some f => f.via304 | none => false
+          add st1 (["bad:C05:served-from-cache-a-body-the-origin-never-sent", "bad:C07:hit-body-is-not-the-stored-body"] ++
+                   (if after304 then ["bad:C09:stored-body-lost-after-a-304-revalidation"] else [])) [] "hit:unknown-body"
       | some s =>
         -- the fetches that could have filled this entry
         let fills := st.fetches.filter fun f => f.origin.body == s.body && f.origin.path == path
